@@ -4,7 +4,7 @@ use swiftness_air::{domains::StarkDomains, layout::LayoutTrait, public_memory::P
 use swiftness_commitment::table::commit::table_commit;
 use swiftness_fri::fri::fri_commit;
 use swiftness_pow::pow;
-use swiftness_transcript::transcript::Transcript;
+use swiftness_transcript::{ensure, transcript::Transcript};
 
 // STARK commitment phase.
 pub fn stark_commit<Layout: LayoutTrait>(
@@ -48,6 +48,14 @@ pub fn stark_commit<Layout: LayoutTrait>(
     let oods_alpha = transcript.random_felt_to_prover();
     let oods_coefficients =
         powers_array(Felt::ONE, oods_alpha, (Layout::MASK_SIZE + Layout::CONSTRAINT_DEGREE) as u32);
+
+    // The shape of the FRI commitment must match the configuration; fri_commit asserts it.
+    ensure!(
+        Felt::from(unsent_commitment.fri.inner_layers.len()) + Felt::ONE == config.fri.n_layers
+            && Felt::from(unsent_commitment.fri.last_layer_coefficients.len())
+                == Felt::TWO.pow_felt(&config.fri.log_last_layer_degree_bound),
+        Error::FriCommitmentShape
+    );
 
     // Read fri commitment.
     let fri_commitment = fri_commit(transcript, unsent_commitment.fri.clone(), config.fri.clone());
@@ -95,6 +103,9 @@ pub enum Error {
 
     #[error("OodsVerifyError Error")]
     Oods(#[from] oods::OodsVerifyError),
+
+    #[error("fri commitment does not match the fri configuration")]
+    FriCommitmentShape,
 }
 
 #[cfg(not(feature = "std"))]
@@ -108,4 +119,7 @@ pub enum Error {
 
     #[error("OodsVerifyError Error")]
     Oods(#[from] oods::OodsVerifyError),
+
+    #[error("fri commitment does not match the fri configuration")]
+    FriCommitmentShape,
 }
